@@ -107,11 +107,12 @@ def render_params(sig):
 _FUNCS = {}
 
 
-def make_callable(key, sig, is_async, view):
+def make_callable(key, sig, is_async, view, fresh=False):
     """function / coroutine function / view class whose body records its arguments and then does what the
-    current case says.  Cached: the validator's signature cache is keyed by the function object."""
+    current case says.  Cached: the validator's signature cache is keyed by the function object
+    (`fresh=True` builds new objects, for measuring cache growth)."""
     ck = (key, json.dumps(sig), is_async, view)
-    if ck in _FUNCS:
+    if ck in _FUNCS and not fresh:
         return _FUNCS[ck]
     params = render_params(sig)
     recv = '{' + ', '.join(f'{p["n"]!r}: {p["n"]}' for p in sig) + '}'
@@ -135,7 +136,8 @@ def make_callable(key, sig, is_async, view):
         src = f'{a}def f({params}):\n    return _perform({key!r}, {recv})\n'
         exec(src, ns)
         obj = ns['f']
-    _FUNCS[ck] = obj
+    if not fresh:
+        _FUNCS[ck] = obj
     return obj
 
 
